@@ -455,23 +455,45 @@ def _letters(modname, *tables):
     return _uniq(out)[:6]
 
 
+def _attached(modname, with_arg_tables, other_tables=(), extra_letters="itdvq"):
+    """A short option with its value ATTACHED where the value ends in (or consists of) a letter that is itself an
+    option: -exe, -exu, -wx/w, -iexu ...  (a parser that looks at the last letter of the word, or scans the whole
+    word for option letters, takes the value's tail for an option)."""
+    wa = [f[1] for f in _mod_flags(modname, *with_arg_tables) if len(f) == 2 and f[0] == "-" and f[1] != "-"]
+    others = [f[1] for f in _mod_flags(modname, *other_tables) if len(f) == 2 and f[0] == "-" and f[1] != "-"] + list(extra_letters)
+    letters = _uniq(wa + others)
+    out = []
+    for L in wa:
+        for M in letters:
+            out += [f"-{L}x{M}", f"-{L}{M}", f"-{L}=x{M}", f"-{L}/a/{M}"]
+        for N in others[:2]:
+            for M in wa:
+                out.append(f"-{N}{L}x{M}")
+    return _uniq(out)
+
+
 def handler_token_lists(tier):
     """head + token lists:  every token of the full alphabet alone, before and after every token of a small `near`
     set (three of the handler's own flags + an approved and a denied inner command; thorough: full^2 and every
     position of a 3-list), and the core alphabet exhaustively up to 3 (thorough: 4)."""
     quick = tier == "quick"
     extra = {
-        ("env",): _abbrevs("env") + _letters("env", "SHORT_WITH_ARG", "FLAGS_WITH_ARG"),
-        ("xargs",): _abbrevs("xargs") + _letters("xargs", "FLAGS_WITH_ARG") + ["--zi", "--zl"],
-        ("docker", "exec"): _letters("docker", "EXEC_SHORT_WITH_ARG", "EXEC_FLAGS_WITH_ARG") + ["--en", "--us", "--detach"],
+        ("env",): _abbrevs("env") + _letters("env", "SHORT_WITH_ARG", "FLAGS_WITH_ARG") + _attached("env", ("SHORT_WITH_ARG", "FLAGS_WITH_ARG"), (), "i0v"),
+        ("xargs",): _abbrevs("xargs") + _letters("xargs", "FLAGS_WITH_ARG") + ["--zi", "--zl"] + _attached("xargs", ("FLAGS_WITH_ARG",), ("UNSAFE_FLAGS",), "0rtpoil"),
+        ("docker", "exec"): _letters("docker", "EXEC_SHORT_WITH_ARG", "EXEC_FLAGS_WITH_ARG") + ["--en", "--us", "--detach"]
+        + _attached("docker", ("EXEC_SHORT_WITH_ARG", "EXEC_FLAGS_WITH_ARG"), ("EXEC_FLAGS_NO_ARG",)),
+        ("podman", "exec"): _attached("docker", ("EXEC_SHORT_WITH_ARG", "EXEC_FLAGS_WITH_ARG"), ("EXEC_FLAGS_NO_ARG",)),
         ("docker",): _letters("docker", "GLOBAL_FLAGS_WITH_ARG") + ["--lo", "--conf"],
-        ("kubectl", "exec"): ["--zc", "--zn", "--st", "--tt", "--names", "--contain"],
+        ("kubectl", "exec"): ["--zc", "--zn", "--st", "--tt", "--names", "--contain", "-itcmain", "-cmain", "-cxi", "-cxt", "-nxc", "-itnxc", "-cx-", "-itc--", "-c--"],
         ("sh",): ["--zc", "--rc", "--no", "-zc"],
     }
     for head, (full, core) in handler_alphabets().items():
         full, core = _uniq(full + extra.get(head, [])), _uniq(core)
         cmds = [t for t in core if t in ("ls", "rm", "zap", "rm x", "ls; zap")][-2:]
-        near = _uniq(core[:3] + cmds + ["ls"])
+        # three of the handler's own flags, a neutral operand (the container / pod / file name an option parser must
+        # not swallow), an approved and a denied inner command
+        neutral = [t for t in core if t in ("c", "pod", "x", ".")][:1] or ["x"]
+        near = _uniq(core[:3] + neutral + cmds + ["ls"])
         seen = set()
 
         def emit(t):
@@ -483,8 +505,8 @@ def handler_token_lists(tier):
         for f in full:
             for a in (near if quick else full):
                 lists += [[f, a], [a, f]]
-            for a in near[:3]:
-                for b in near[3:]:
+            for a in near[:4]:
+                for b in near[4:]:
                     lists += [[f, a, b], [a, f, b]]
             if not quick:
                 for a in near:
